@@ -2,6 +2,6 @@
 # re-run the primary check of every filed seeded change (development aid); 3 at a time
 cd "$(dirname "$0")/.."
 ls seeded | while read n; do
-  id=$(python3 -c "import json;m=json.load(open('seeded/$n/meta.json'));print('' if (m.get('obsolete') or m.get('outside_property')) else m['property'])")
+  id=$(python3 -c "import json;m=json.load(open('seeded/$n/meta.json'));d=[k for k,v in (m.get('detected_by') or {}).items() if v];print('' if (m.get('obsolete') or m.get('outside_property')) else (m['property'] if (m['property'] in d or not d) else d[0]))")
   [ -n "$id" ] && echo "$n $id"
 done | xargs -P 3 -L 1 sh -c 'python3 tools/seed_recheck.py $0 $1 2>&1 | head -3'
